@@ -33,3 +33,7 @@ package include
 //@   ensures [C10:stack] forall p string :: visited[p] == old(visited[p])
 //@   ensures [grow_only] forall p string :: old(visited[p]) ==> visited[p]
 //@   modifies visited[*], result.Files[*], result.FileOrder, l.cache[*]
+
+// srcPath(r): the path of the file r.Primary was parsed from (a ghost attribute of a resolved journal: fixed when the
+// journal is created by the loader / the workspace, never stored in the struct).
+//@ specfun srcPath(r *ResolvedJournal) string
